@@ -41,6 +41,7 @@ func nearCollidingUniverse(t *rapid.T, n int) []model.TripleSpec {
 	s1 := model.NodeSpec{Type: "/a", ID: "bc"}
 	s2 := model.NodeSpec{Type: "/a/b", ID: "c"}
 	s3 := model.NodeSpec{Type: "/ab", ID: "c"} // collides with s1 under KF-C06-NODE-BOUNDARY: filtered below while that finding is open
+	s4 := model.NodeSpec{Type: "/a", ID: "c"} // same id as s2 under its parent type (covariant types)
 	base := int64(1136214245)
 	pi := model.PredSpec{ID: "p"}
 	pt := model.PredSpec{ID: "p", Anchor: tsp(base, 0, 0)}
@@ -56,14 +57,14 @@ func nearCollidingUniverse(t *rapid.T, n int) []model.TripleSpec {
 		{L: &model.LitSpec{Kind: "text", S: "1"}},
 		{L: &model.LitSpec{Kind: "int64", I: 1 << 55}},
 		{L: &model.LitSpec{Kind: "int64", I: -(1 << 62)}},
-		{N: &s1}, {N: &s2}, {N: &s3},
+		{N: &s1}, {N: &s2}, {N: &s3}, {N: &s4},
 		{P: &pi}, {P: &pt}, {P: &ptz},
 	}
 	// int64 values that agree in their low or in their high varint bytes
 	for _, i := range []int64{1 << 56, 1 << 62, 3 << 55, -(1 << 55), 1<<55 + 1, 1<<56 + 1, math.MaxInt64, math.MinInt64, 2, 257} {
 		objs = append(objs, model.ObjSpec{L: &model.LitSpec{Kind: "int64", I: i}})
 	}
-	subj := []model.NodeSpec{s1, s2, s3}
+	subj := []model.NodeSpec{s1, s2, s3, s4}
 	preds := []model.PredSpec{pi, pt, ptz, pt1, q}
 	var u []model.TripleSpec
 	for len(u) < n {
